@@ -165,7 +165,17 @@ func eval(c Case) (f *pbt.Fail) {
 	case <-time.After(120 * time.Second): // nominal: well under a second
 		buf := make([]byte, 1<<16)
 		n := runtime.Stack(buf, true)
-		return pbt.Failf("deadlock", "the plan (%d goroutines) did not finish within 120 s; goroutine dump:\n%s", len(c.Plan), buf[:n])
+		// a second look two seconds later: goroutines that are still inside the same library frames, blocked on a lock,
+		// are not slow - they wait for something nobody will release
+		first := blockedInLibrary(string(buf[:n]))
+		time.Sleep(2 * time.Second)
+		n = runtime.Stack(buf, true)
+		second := blockedInLibrary(string(buf[:n]))
+		f := pbt.Failf("deadlock", "the plan (%d goroutines) did not finish within 120 s (nominal: under a second); %d goroutines are blocked on a lock inside the library (%d two seconds earlier), e.g. %s", len(c.Plan), len(second), len(first), firstOf(second))
+		if len(second) > 0 && len(first) > 0 {
+			pbt.Terminal(rec, "concurrent-calls", c, f) // does not return: the lock stays held, nothing else can be evaluated in this process
+		}
+		return f
 	}
 	var stamps []stamp
 	for gi, m := range seen {
@@ -190,6 +200,31 @@ func eval(c Case) (f *pbt.Fail) {
 }
 
 var overlapped bool
+
+// blockedInLibrary returns, from a goroutine dump, the innermost library frame of every goroutine that waits for a lock
+// (sync.Mutex / RWMutex) taken inside the library.
+func blockedInLibrary(dump string) []string {
+	var out []string
+	for _, g := range strings.Split(dump, "\n\n") {
+		if !strings.Contains(g, "sync.(*Mutex).Lock") && !strings.Contains(g, "sync.(*RWMutex).Lock") && !strings.Contains(g, "sync.(*RWMutex).RLock") {
+			continue
+		}
+		for _, ln := range strings.Split(g, "\n") {
+			if strings.HasPrefix(ln, "github.com/evanoberholster/imagemeta") {
+				out = append(out, strings.TrimPrefix(ln, "github.com/evanoberholster/imagemeta/"))
+				break
+			}
+		}
+	}
+	return out
+}
+
+func firstOf(s []string) string {
+	if len(s) == 0 {
+		return "(none)"
+	}
+	return s[0]
+}
 
 // overlap: did two goroutines run the same pool-using entry point at the same time?
 func overlap(st []stamp) bool {
